@@ -139,16 +139,43 @@ def build(repo=None):
     # ------------------------------------------------------------------ __init__: both switches read from the environment, default "0"
     fi = mod.func("_JaxtypingConfig.__init__")
     functions.append({"qualname": "jaxtyping._config._JaxtypingConfig.__init__", "sha256_16": mod.sha(fi), "lines": [fi.lineno, fi.end_lineno]})
-    calls = []
-    for n in ast.walk(fi):
-        if isinstance(n, ast.Call) and isinstance(n.func, ast.Attribute) and n.func.attr == "update" and len(n.args) == 2:
-            a0, a1 = n.args
-            env_ok = (isinstance(a1, ast.Call) and ast.unparse(a1.func) == "os.environ.get" and len(a1.args) == 2 and isinstance(a1.args[0], ast.Constant)
-                      and isinstance(a1.args[1], ast.Constant) and a1.args[1].value == "0")
-            if isinstance(a0, ast.Constant) and env_ok:
-                calls.append((a0.value, a1.args[0].value))
-    want = {("jaxtyping_disable", "JAXTYPING_DISABLE"), ("jaxtyping_remove_typechecker_stack", "JAXTYPING_REMOVE_TYPECHECKER_STACK")}
-    obligations.append({"clause": "init:both-switches-initialised-from-their-environment-variables-default-0", "pc": [], "goal": z3.BoolVal(set(calls) == want), "path": [], "meta": {"found": z3.StringVal(str(sorted(calls)))}})
+    # executed: every path of __init__ must make exactly the two update(<switch>, os.environ.get(<VARIABLE>, "0")) calls (helpers, loops over module constants followed)
+    eng = Engine(mod)
+    st = State()
+    st.ghost["updates"] = []
+    self_ref = st.alloc(Obj("_JaxtypingConfig", {}, tag="self"))
+
+    def m_update(e, s, recv, args, kw, nd):
+        if recv is self_ref or (isinstance(recv, Ref) and recv == self_ref):
+            s1 = s.clone()
+            s1.ghost["updates"] = s1.ghost["updates"] + [tuple(args) if not kw else ("keywords",)]
+            return [(s1, NONE)]
+        return None
+
+    def m_get(e, s, recv, args, kw, nd):
+        if isinstance(recv, Opaque) and recv.tag == "os.environ" and not kw and len(args) == 2:
+            return [(s, Opaque("environ.get", attrs={"args": Tup(list(args))}))]
+        return None
+
+    eng.method_models.update({"update": m_update, "get": m_get})
+    eng.globals["os"] = Opaque("module:os", attrs={"environ": Opaque("os.environ")})
+    st.env = {fi.args.args[0].arg: self_ref}
+
+    def lit(v):
+        return z3.simplify(v.t).as_string() if isinstance(v, Z) and v.kind == "str" and z3.is_string_value(z3.simplify(v.t)) else None
+
+    want = {("jaxtyping_disable", "JAXTYPING_DISABLE", "0"), ("jaxtyping_remove_typechecker_stack", "JAXTYPING_REMOVE_TYPECHECKER_STACK", "0")}
+    for s1, o in eng.run(fi.body, st):
+        paths += 1
+        calls = set()
+        for u in s1.ghost["updates"]:
+            if len(u) == 2 and isinstance(u[1], Opaque) and u[1].tag == "environ.get":
+                g = u[1].attrs["args"].items
+                calls.add((lit(u[0]), lit(g[0]), lit(g[1])))
+            else:
+                calls.add(("?",))
+        eng.oblige(s1, "init:both-switches-initialised-from-their-environment-variables-default-0", z3.BoolVal(o.kind in ("normal", "return") and calls == want and len(s1.ghost["updates"]) == 2), found=z3.StringVal(str(sorted(calls, key=str))))
+    obligations.extend(st.obl)
     singleton = any(isinstance(n, ast.Assign) and getattr(n.targets[0], "id", None) == "config" and isinstance(n.value, ast.Call) and getattr(n.value.func, "id", None) == "_JaxtypingConfig" for n in mod.tree.body)
     ccls = mod.cls("_JaxtypingConfig")
     own_state = sorted({b.name for b in ccls.body if isinstance(b, (ast.FunctionDef, ast.AsyncFunctionDef))})
